@@ -99,7 +99,15 @@ def workload(tier, seed, scale=1.0):
 
 
 def stages(tier, seed):
+    from ..cross import cross_stages, portable
     cmds = workload(tier, seed)
     groups = [[c] for c in cmds]
-    return [dict(label='rel', variant='rel', groups=groups), dict(label='dbg', variant='dbg', groups=groups),
-            dict(label='nostd-rel', variant='nostd-rel', groups=groups)]
+    st = [dict(label='rel', variant='rel', groups=groups), dict(label='dbg', variant='dbg', groups=groups),
+          dict(label='nostd-rel', variant='nostd-rel', groups=groups)]
+    # the serialized form must not depend on the internal digit width: same script on a 32-bit-digit target
+    sub = portable(cmds)[::(8 if tier == 'quick' else 2)]
+    st += cross_stages('C17', sub, dict(label='x-rel', variant='rel'),
+                       [dict(label='miri-i686', variant='miri-i686', tool='miri:i686', shard_min=8, timeout=1500)] +
+                       ([dict(label='miri-s390x', variant='miri-s390x', tool='miri:s390x', shard_min=8, timeout=1500)] if tier != 'quick' else []),
+                       'serialized form / deserialized value must be independent of the digit width')
+    return st
